@@ -696,6 +696,203 @@ Proof.
 Qed.
 
 (* ------------------------------------------------------------------------------------------ *)
+(* headline corollaries at the level of the parsers themselves                                 *)
+(* ------------------------------------------------------------------------------------------ *)
+(* parseUDPHeader never indexes out of range (no run-time panic), for every datagram *)
+Lemma idx_in i d : i < lenN d -> idx i d = Some (byte_at (N.to_nat i) d).
+Proof. intros H. unfold idx. destruct (N.ltb_spec i (lenN d)); [reflexivity|lia]. Qed.
+Lemma slc_in a b d : a <= b -> b <= lenN d -> slc a b d = Some (sub a (b - a) d).
+Proof.
+  intros H1 H2. unfold slc. destruct (N.leb_spec a b); [|lia]. destruct (N.leb_spec b (lenN d)); [|lia]. reflexivity.
+Qed.
+Lemma sub_to_end a d : a <= lenN d -> sub a (lenN d - a) d = skipn (N.to_nat a) d.
+Proof.
+  intros H. unfold sub. apply firstn_all2. rewrite skipn_length. unfold lenN in *. lia.
+Qed.
+
+Theorem udp_parse_checked_spec mn d : 4 <= mn ->
+  udp_parse_checked mn d = upres_of (udp_parse mn d).
+Proof.
+  intros Hmn. unfold udp_parse_checked, udp_parse.
+  destruct (N.ltb_spec (lenN d) mn) as [|Hl]; [reflexivity|].
+  rewrite (idx_in 2 d) by lia. change (N.to_nat 2) with 2%nat.
+  destruct (negb (byte_at 2 d =? 0)); [reflexivity|].
+  rewrite (idx_in 3 d) by lia. change (N.to_nat 3) with 3%nat.
+  destruct (byte_at 3 d =? ATYP_V4).
+  { destruct (N.ltb_spec (lenN d) 10) as [|H10]; [reflexivity|].
+    rewrite (slc_in 4 8 d), (slc_in 8 10 d), (slc_in 10 (lenN d) d) by lia.
+    rewrite (sub_to_end 10 d) by lia. reflexivity. }
+  destruct (byte_at 3 d =? ATYP_DOMAIN).
+  { destruct (N.ltb_spec (lenN d) 5) as [|H5]; [reflexivity|].
+    rewrite (idx_in 4 d) by lia. change (N.to_nat 4) with 4%nat.
+    set (dl := byte_at 4 d).
+    destruct (N.ltb_spec (lenN d) (5 + dl + 2)) as [|Hd]; [reflexivity|].
+    rewrite (slc_in 5 (5 + dl) d), (slc_in (5 + dl) (5 + dl + 2) d), (slc_in (5 + dl + 2) (lenN d) d) by lia.
+    rewrite (sub_to_end (5 + dl + 2) d) by lia.
+    replace (5 + dl - 5) with dl by lia. replace (5 + dl + 2 - (5 + dl)) with 2 by lia. reflexivity. }
+  destruct (byte_at 3 d =? ATYP_V6).
+  { destruct (N.ltb_spec (lenN d) 22) as [|H22]; [reflexivity|].
+    rewrite (slc_in 4 20 d), (slc_in 20 22 d), (slc_in 22 (lenN d) d) by lia.
+    rewrite (sub_to_end 22 d) by lia. reflexivity. }
+  reflexivity.
+Qed.
+
+Corollary udp_parse_never_panics d : udp_parse_checked udp_min_current d <> UPanic.
+Proof.
+  rewrite udp_parse_checked_spec by (unfold udp_min_current; lia).
+  destruct (udp_parse udp_min_current d) as [[[[t a] p] pl]|]; discriminate.
+Qed.
+
+(* a first length check below 4 would index out of range: the guard is what excludes the panic *)
+Lemma udp_parse_short_guard_refuted : exists d, udp_parse_checked 3 d = UPanic.
+Proof. exists [0; 0; 0]. reflexivity. Qed.
+
+(* an accepted datagram IS the RFC encoding of what was returned, followed by the payload: nothing lost, nothing added *)
+Theorem udp_parse_payload_intact d atyp a p data :
+  wf_bytes d -> udp_parse udp_min_current d = Some (atyp, a, p, data) ->
+  wf_addr atyp a /\ p < 65536 /\ exists r0 r1, d = enc_udp r0 r1 atyp a p data.
+Proof. intros Hwf H. rewrite udp_parse_is_ref in H. exact (ref_udp_sound d atyp a p data Hwf H). Qed.
+
+(* greeting: every RFC method-selection message offering the wanted method is selected *)
+Lemma ref_greeting_complete want (methods tail : list byte) :
+  0 < lenN methods -> lenN methods < 256 -> existsb (fun m => m =? want) methods = true ->
+  ref_greeting want (enc_greeting methods ++ tail) = GSelected (2 + lenN methods).
+Proof.
+  intros H0 H1 He. unfold enc_greeting, ref_greeting. cbn [app N.eqb Pos.eqb negb].
+  destruct (N.eqb_spec (lenN methods) 0) as [E|_]; [lia|].
+  rewrite lenN_app. destruct (N.ltb_spec (lenN methods + lenN tail) (lenN methods)) as [|_]; [lia|].
+  unfold sub. change (N.to_nat 0) with 0%nat. cbn [skipn].
+  rewrite (takeN_app_exact (lenN methods) methods tail eq_refl), He. reflexivity.
+Qed.
+
+Lemma enc_greeting_len (methods : list byte) : lenN (enc_greeting methods) = 2 + lenN methods.
+Proof. unfold enc_greeting. cbn [app]. rewrite !lenN_cons. lia. Qed.
+
+Lemma expected_session_complete anm rbv cmd_ok (methods : list byte) q rsv (tail : list byte) :
+  0 < lenN methods -> lenN methods < 256 -> existsb (fun m => m =? 0) methods = true ->
+  cmd_ok (q_cmd q) = true -> wf_addr (q_atyp q) (q_addr q) -> q_port q < 65536 ->
+  expected_session anm rbv cmd_ok None (enc_greeting methods ++ enc_request q rsv ++ tail) =
+  {| o_res := Some q; o_out := [5; 0]; o_used := lenN (enc_greeting methods) + lenN (enc_request q rsv) |}.
+Proof.
+  intros H0 H1 He Hc Hw Hp. unfold expected_session, expected_greeting. cbn [adapter_want]. unfold AUTH_NONE.
+  rewrite (ref_greeting_complete 0 methods _ H0 H1 He). cbn [g_ok g_used g_out].
+  rewrite <- enc_greeting_len, (dropN_app_exact _ (enc_greeting methods) _ eq_refl).
+  unfold expected_request. rewrite (ref_request_complete cmd_ok q rsv tail Hc Hw Hp).
+  cbn [o_res o_out o_used app]. reflexivity.
+Qed.
+
+(* completeness of the parsers themselves: EVERY well-formed RFC 1928 conversation (a greeting offering "no
+   authentication", then a supported request) is parsed to exactly that request, under every chunking, and what
+   follows the request stays on the connection untouched *)
+Theorem listener_accepts_every_rfc_request (methods : list byte) q rsv (tail : list byte) cuts :
+  0 < lenN methods -> lenN methods < 256 -> existsb (fun m => m =? 0) methods = true ->
+  listener_cmd_ok (q_cmd q) = true -> wf_addr (q_atyp q) (q_addr q) -> q_port q < 65536 ->
+  rd_obs (run_rd listener_handshake (mkrd (enc_greeting methods ++ enc_request q rsv ++ tail) cuts) []) =
+  Some (Some q, tail, [5; 0]).
+Proof.
+  intros H0 H1 He Hc Hw Hp. rewrite listener_matches_rfc. unfold expected_listener.
+  rewrite (expected_session_complete false true listener_cmd_ok methods q rsv tail H0 H1 He Hc Hw Hp).
+  cbn [o_res o_out o_used]. rewrite app_assoc, dropN_app_exact; [reflexivity|apply lenN_app].
+Qed.
+
+Theorem adapter_accepts_every_rfc_request (methods : list byte) q rsv (tail : list byte) cuts :
+  0 < lenN methods -> lenN methods < 256 -> existsb (fun m => m =? 0) methods = true ->
+  adapter_cmd_ok (q_cmd q) = true -> wf_addr (q_atyp q) (q_addr q) -> q_port q < 65536 ->
+  adapter_session false None (mkrd (enc_greeting methods ++ enc_request q rsv ++ tail) cuts) =
+  Some {| a_hs_ok := true; a_hs_left := enc_request q rsv ++ tail; a_req := Some q; a_out := [5; 0]; a_left := tail |}.
+Proof.
+  intros H0 H1 He Hc Hw Hp. rewrite adapter_matches_rfc. unfold adapter_expected_obs, expected_adapter.
+  rewrite (expected_session_complete true false adapter_cmd_ok methods q rsv tail H0 H1 He Hc Hw Hp).
+  unfold expected_greeting. cbn [adapter_want]. unfold AUTH_NONE.
+  rewrite (ref_greeting_complete 0 methods _ H0 H1 He). cbn [g_ok g_used g_out o_res o_out o_used].
+  rewrite <- enc_greeting_len, (dropN_app_exact _ (enc_greeting methods) _ eq_refl).
+  rewrite app_assoc, dropN_app_exact; [reflexivity|apply lenN_app].
+Qed.
+
+(* soundness of the parsers themselves: whatever Listener.Handshake accepts is, byte for byte, the RFC encoding of
+   the request it returns *)
+Theorem listener_accepts_only_rfc_encodings s cuts q r' out :
+  wf_bytes s -> run_rd listener_handshake (mkrd s cuts) [] = Some (Some q, r', out) ->
+  listener_cmd_ok (q_cmd q) = true /\ wf_addr (q_atyp q) (q_addr q) /\ q_port q < 65536 /\
+  exists glen rlen rsv,
+    firstn (N.to_nat rlen) (skipn (N.to_nat glen) s) = enc_request q rsv /\
+    rest r' = skipn (N.to_nat (glen + rlen)) s.
+Proof.
+  intros Hwf H. destruct (listener_no_overread s cuts q r' out H) as (glen & rlen & _ & Hr & Hrest & _).
+  destruct (ref_request_sound listener_cmd_ok _ q rlen (wf_bytes_skipn _ _ Hwf) Hr) as (C & W & P & rsv & F & _).
+  refine (conj C (conj W (conj P _))). exists glen, rlen, rsv. auto.
+Qed.
+
+(* "rejected with the appropriate reply", spelled out: the replies RFC 1928 section 6 mandates *)
+Theorem listener_rejects_with_mandated_reply s cuts :
+  (forall n, ref_greeting AUTH_NONE s = GNoAcceptable n ->
+     rd_obs (run_rd listener_handshake (mkrd s cuts) []) = Some (None, skipn (N.to_nat n) s, [5; 255])) /\
+  (forall n, ref_greeting AUTH_NONE s = GSelected n ->
+     (ref_request listener_cmd_ok (skipn (N.to_nat n) s) = RCmdUnsupported ->
+        rd_obs (run_rd listener_handshake (mkrd s cuts) []) =
+        Some (None, skipn (N.to_nat (n + 4)) s, [5; 0] ++ reply REP_CMD)) /\
+     (ref_request listener_cmd_ok (skipn (N.to_nat n) s) = RAtypUnsupported ->
+        rd_obs (run_rd listener_handshake (mkrd s cuts) []) =
+        Some (None, skipn (N.to_nat (n + 4)) s, [5; 0] ++ reply REP_ATYP))).
+Proof.
+  unfold AUTH_NONE. split; [|intros n Hg; split]; intros; rewrite listener_matches_rfc;
+    unfold expected_listener, expected_session, expected_greeting, expected_request; cbn [adapter_want];
+    unfold AUTH_NONE.
+  - rewrite H. reflexivity.
+  - rewrite Hg. cbn [g_ok g_used g_out]. rewrite H. reflexivity.
+  - rewrite Hg. cbn [g_ok g_used g_out]. rewrite H. reflexivity.
+Qed.
+
+Theorem adapter_rejects_with_mandated_reply auth s cuts :
+  (forall n, ref_greeting (adapter_want auth) s = GNoAcceptable n ->
+     exists o, adapter_session false auth (mkrd s cuts) = Some o /\
+               a_hs_ok o = false /\ a_req o = None /\ a_out o = [5; 255] /\ a_left o = skipn (N.to_nat n) s) /\
+  (g_ok (expected_greeting true auth s) = true ->
+     let g := expected_greeting true auth s in
+     (ref_request adapter_cmd_ok (skipn (N.to_nat (g_used g)) s) = RCmdUnsupported ->
+        exists o, adapter_session false auth (mkrd s cuts) = Some o /\ a_req o = None /\
+                  a_out o = g_out g ++ reply REP_CMD /\ a_left o = skipn (N.to_nat (g_used g + 4)) s) /\
+     (ref_request adapter_cmd_ok (skipn (N.to_nat (g_used g)) s) = RAtypUnsupported ->
+        exists o, adapter_session false auth (mkrd s cuts) = Some o /\ a_req o = None /\
+                  a_out o = g_out g ++ reply REP_ATYP /\ a_left o = skipn (N.to_nat (g_used g + 4)) s)).
+Proof.
+  split.
+  - intros n Hg. exists (adapter_expected_obs auth s). split; [apply adapter_matches_rfc|].
+    unfold adapter_expected_obs, expected_adapter, expected_session, expected_greeting. rewrite Hg.
+    cbn [g_ok g_used g_out a_hs_ok a_req a_out a_left o_res o_out o_used]. auto.
+  - intros Hok g. subst g. split; intros Hr; exists (adapter_expected_obs auth s); (split; [apply adapter_matches_rfc|]);
+      unfold adapter_expected_obs, expected_adapter, expected_session; rewrite Hok;
+      unfold expected_request; rewrite Hr; cbn [a_req a_out a_left o_res o_out o_used]; auto.
+Qed.
+
+Lemma readfull_delivers_exactly_n fuel n r got r' :
+  (length (rest r) <= fuel)%nat -> read_full fuel n r = RFOk got r' -> lenN got = n.
+Proof.
+  intros Hf H. destruct (read_full_spec fuel n r Hf) as [Hok Hend].
+  destruct (N.le_gt_cases n (lenN (rest r))) as [Hle|Hgt].
+  - destruct (Hok Hle) as (r1 & E & _). rewrite E in H. injection H as <- _. now apply lenN_firstn.
+  - destruct (Hend Hgt) as (r1 & E & _). rewrite E in H. discriminate.
+Qed.
+
+Lemma never_panics_model :
+  (forall d, udp_parse_checked udp_min_current d <> UPanic) /\
+  (forall (A : Type) (p : prog A) (r : rd) (out : list byte), run_rd p r out <> None) /\
+  (forall fuel n r got r', (length (rest r) <= fuel)%nat -> read_full fuel n r = RFOk got r' -> lenN got = n).
+Proof. split; [exact udp_parse_never_panics|split; [exact run_rd_total|exact readfull_delivers_exactly_n]]. Qed.
+
+Lemma rfc_request_premises_satisfiable :
+  let methods := [2; 0] in
+  let q := {| q_cmd := 1; q_atyp := 3; q_addr := [97; 46; 98]; q_port := 443 |} in
+  0 < lenN methods /\ lenN methods < 256 /\ existsb (fun m => m =? 0) methods = true /\
+  listener_cmd_ok (q_cmd q) = true /\ adapter_cmd_ok (q_cmd q) = true /\ wf_addr (q_atyp q) (q_addr q) /\
+  q_port q < 65536 /\
+  enc_greeting methods ++ enc_request q 0 ++ [9; 9] = [5;2;2;0; 5;1;0;3;3;97;46;98;1;187; 9;9].
+Proof.
+  cbv zeta. refine (conj _ (conj _ (conj _ (conj _ (conj _ (conj _ (conj _ _))))))); try (vm_compute; reflexivity).
+  split; [apply wf_bytesb_ok; reflexivity|]. right. left. split; [reflexivity|vm_compute; reflexivity].
+Qed.
+
+(* ------------------------------------------------------------------------------------------ *)
 (* the two defects of the pinned tree, as refuted statements about the faithful pinned model    *)
 (* ------------------------------------------------------------------------------------------ *)
 (* (a) parseUDPHeader checked len(data) < 10 before looking at ATYP: a valid 9-byte domain datagram
